@@ -137,25 +137,38 @@ def interpolator_unit(num_axes):
 VOL = {n: z3.Function(f"vol{n}", *([z3.IntSort()] * n), z3.RealSort()) for n in (1, 2, 3)}
 
 
-def inserter_unit(num_axes):
+def _volume_getter_stub(num_axes):
+    """contract of make_cell_volume_getter: volume of cell idx; with_ghost_cells=True: idx refers to the padded array,
+    i.e. the volume of cell idx - 1 (ghost cells carry some positive number)"""
+    def make(grid=None, flat_index=False, with_ghost_cells=False, backend=None):
+        shift = 1 if with_ghost_cells else 0
+        return lambda *idx: VOL[num_axes](*[to_z3(i) - shift for i in idx])
+    return make
+
+
+def inserter_unit(num_axes, with_ghost=False):
+    """with_ghost: the inserter works on the padded array (index k + 1 holds cell k); the statement is about
+    points whose support cells are all valid cells (ghost cells do not count towards the integral)"""
+    off = 1 if with_ghost else 0
+
     def unit(U):
         def body(it):
             log = []
             grids_mod = it.load_module(MOD)
             it.overrides["make_interpolation_axis_data"] = _axis_stub(log)
             stub_grids = Instance(None, {"make_interpolation_axis_data": _axis_stub(log),
-                                         "make_cell_volume_getter": lambda grid=None, flat_index=False: (lambda *idx: VOL[num_axes](*[to_z3(i) for i in idx]))}, name="grids")
+                                         "make_cell_volume_getter": _volume_getter_stub(num_axes)}, name="grids")
             it.overrides["grids"] = stub_grids
             N = [z3.Int(f"N{a}") for a in range(num_axes)]
             grid = Instance(None, {"num_axes": num_axes, "shape": tuple(N)}, name="grid")
             cls = it.module_attr(it.load_module("pde.backends.numba.backend"), "NumbaBackend")
             be = Instance(cls, {"compile_function": lambda f: f})
-            f = it.call(it.getattr(be, "make_inserter"), [grid], {"with_ghost_cells": False})
-            data = sym_array("data", tuple(N))
+            f = it.call(it.getattr(be, "make_inserter"), [grid], {"with_ghost_cells": with_ghost})
+            data = sym_array("data", tuple(n + 2 * off for n in N))
             point = sym_array("point", (num_axes,))
             amount = z3.Real("amount")
             for a in range(num_axes):
-                it.ctx.assume(z3.Or(z3.Int(f"c_l{a}") == -42, z3.And(z3.Int(f"c_l{a}") >= 0, z3.Int(f"c_l{a}") < N[a], z3.Int(f"c_h{a}") >= 0, z3.Int(f"c_h{a}") < N[a])))
+                it.ctx.assume(z3.Or(z3.Int(f"c_l{a}") == -42, z3.And(z3.Int(f"c_l{a}") >= off, z3.Int(f"c_l{a}") < N[a] + off, z3.Int(f"c_h{a}") >= off, z3.Int(f"c_h{a}") < N[a] + off)))
             base = data.buf.content
             idxs = z3.Ints(" ".join(f"q{a}" for a in range(num_axes)))
             it.ctx.assume(z3.ForAll(list(idxs), VOL[num_axes](*idxs) > 0))
@@ -164,7 +177,7 @@ def inserter_unit(num_axes):
 
         for p, res in enumerate(explore_paths(U, body)):
             P = prem_of(res.ctx)
-            nm = f"insert[{num_axes}d].path{p}"
+            nm = f"insert[{num_axes}d{',padded' if with_ghost else ''}].path{p}"
             outside = z3.Or(*[z3.Int(f"c_l{a}") == -42 for a in range(num_axes)])
             if res.outcome == "raise":
                 U.prove(f"{nm}.DomainError_only_outside", P, z3.And(outside, z3.BoolVal(res.exc.exc_type == "DomainError")))
@@ -187,13 +200,14 @@ def inserter_unit(num_axes):
                     ok = False
                     break
                 d = to_z3(layer.val) - to_z3(layer.parent.read(layer.idx))
-                delta = delta + VOL[num_axes](*[to_z3(i) for i in layer.idx]) * d
+                delta = delta + VOL[num_axes](*[to_z3(i) - off for i in layer.idx]) * d
             U.prove(f"{nm}.writes_are_point_updates", P, z3.BoolVal(ok and len(layers) == 2**num_axes))
             tot = amount
             for a in range(num_axes):
                 tot = tot * (z3.Real(f"w_l{a}") + z3.Real(f"w_h{a}"))
-            vol_pos = [VOL[num_axes](*[to_z3(i) for i in layer.idx]) > 0 for layer in layers if isinstance(layer, PointLayer)]
-            U.prove(f"{nm}.integral_increases_by_amount_times_weight_sums", P + vol_pos, delta == tot, info={"prefer": "ratnf"})
+            vol_pos = [VOL[num_axes](*[to_z3(i) - k for i in layer.idx]) > 0 for layer in layers if isinstance(layer, PointLayer) for k in (0, off)]
+            U.prove(f"{nm}.integral_increases_by_amount_times_weight_sums", P + vol_pos, delta == tot,
+                    info={"prefer": "ratnf", "replay_payload": {"inserter": True, "with_ghost_cells": with_ghost, "num_axes": num_axes}})
         U.assume_note("with weights summing to one per axis (get_axis_data contract: 1 - 1e-15 < sum <= 1) the integral changes by amount*(1 - eps), 0 <= eps <= num_axes*1e-15")
 
     return unit
@@ -203,6 +217,7 @@ UNITS = (
     [(f"get_axis_data[periodic={p},ghost={g},cell_coords={c}]", axis_data_unit(p, g, c)) for p in (True, False) for g in (True, False) for c in (True, False)]
     + [(f"interpolate_single[{n}d]", interpolator_unit(n)) for n in (1, 2, 3)]
     + [(f"insert[{n}d]", inserter_unit(n)) for n in (1, 2, 3)]
+    + [(f"insert[{n}d,padded]", inserter_unit(n, True)) for n in (1, 2, 3)]
 )
 
 
